@@ -18,6 +18,10 @@ CHECKS = {
    text='Every reference-valid mutation sequence up to length 3 (quick) / 4 (thorough) over the narrow alphabet, and length 2/3 over the full two-model alphabet, is executed stepwise (reference), batched through one AppMutator, batched again with the same objects, and through the real Evolver task pipeline (prepare then _build_batches); final signature (Diff-empty both ways), schema dump and row dump must agree and the mutation definitions must be unaltered.',
    note='Stepwise execution (W1) defines the outcome; paths whose W1 run fails or differs from a fresh creation are outside the domain (C01). Random length-12 sequences of the property text are sampling and are not done.',
    design='3/C03'),
+ 'C10': dict(level='model_checking', technique='exhaustive enumeration of hand-over configurations (evolutions x on-disk migration chain x mark_applied prefix x start state x neighbour x driver) through the real Evolver/commands, order observed from signals',
+   text='Generated app with k evolutions followed by MoveToDjangoMigrations(mark_applied=S) and a real on-disk chain of m migrations, S every prefix, start states {empty database, database at V0, at each earlier evolution}, alone and next to an evolution-only app, through D2/D3/D4: evolution SQL must precede the app migrations, marked migrations are recorded once and not executed, the rest execute once in dependency order, the stored applied_migrations equal the django_migrations rows, upgrade_method is migrations, schema equals a fresh creation for consistent S, and a further run offers no hint, needs nothing and executes no SQL.',
+   note='mark_applied is consistent iff it names the migrations the evolutions cover; under-marked configurations are expected to fail with a duplicate column and are only counted.',
+   design='3/C10'),
  'C11': dict(level='model_checking', technique='explicit-state BFS over rename/delete mutation sequences; invariant on the simulated signature and on PRAGMA foreign_key_list/foreign_key_check of the real database',
    text='From every S2/S3 start (cross-model and cross-app FK/O2O/M2M, prefix model names, single-character app label) all sequences up to depth 2 (quick) / 3 (thorough) of RenameModel, RenameAppLabel, RenameField, DeleteField, DeleteModel, DeleteApplication, AddField; after every transition no relation in the simulated signature may dangle or mention a renamed-away name, and every database foreign key must point at an existing table/column and validate.',
    note='Crashes/SQL errors of a transition are C01 business. Rows (R2) are present so foreign_key_check is meaningful.',
@@ -71,7 +75,7 @@ CHECKS = {
    note='Executions are counted per label since its last wipe. States reached through a violating event are not expanded.',
    design='3/C08'),
  'C09': dict(level='model_checking', technique='exhaustive enumeration of all digraphs <=N nodes on the real DependencyGraph + exhaustive dependency configurations through the real Evolver',
-   text='All labelled digraphs on <=4 (quick) / <=5 (thorough) nodes through the real DependencyGraph.get_ordered, checked against an independent Kahn oracle; generated multi-app projects with every single-dependency assignment through the real Evolver, order observed from signals.',
+   text='All labelled digraphs on <=4 (quick) / <=5 (thorough) nodes through the real DependencyGraph.get_ordered, checked against an independent Kahn oracle; plus a four-app project (two apps with pending evolutions, a brand-new app, a migration-managed app with two pending migrations) under every assignment of at most one (quick) / two (thorough) declared dependencies from the menu {AFTER,BEFORE}_{EVOLUTIONS,MIGRATIONS} at evolution and app level, from two start states, through the real Evolver; the execution order is recognised from the executed SQL itself.',
    note='Independent 15-line Kahn implementation is the trusted oracle.',
    design='3/C09'),
 }
